@@ -7,12 +7,15 @@
    class "typ".  The classes are
 
      missing   the line is removed (the Go zero value is used)
-     neg       a negative number / duration
+     neg       a negative number / duration (not for sizes: "-1KB" is a
+               malformed token, not a value)
      zero      0, 0s, 0B
      one       the smallest positive value (1, 1s, 1B)
      typ       the distributed value or another ordinary one
      huge      far above anything sensible (for a prefix length: far above the
-               address family; for a port: 65535)
+               address family; for a port: 65535; bounded to 10^6 by the
+               harness where the code allocates memory proportional to the
+               value -- exhausting memory is not a failure the property names)
      overfam   prefix lengths only: one above the family (33 / 129)
      over      ports only: 65536
      incons    connection_limit.resume only: stop + 1
